@@ -71,14 +71,15 @@ def main():
             case = {'comp': getattr(mod, 'COMPONENT', '?'), 'cfg': 'harness-error',
                     'steps': [], 'tags': ['harness-error'],
                     'error': ''.join(traceback.format_exception(type(ex), ex, ex.__traceback__))[-1500:]}
-            # an internal error (a name / attribute / call that does not exist) raised by the code under verification
+            # an internal error (a name / attribute / call / key / index that does not exist, …) raised by the code under verification
             # itself and escaping from one of its entry points: the script is a concrete input on which it crashes
             tb = ex.__traceback__
             while tb is not None and tb.tb_next is not None:
                 tb = tb.tb_next
             origin = os.path.realpath(tb.tb_frame.f_code.co_filename) if tb is not None else ''
             impl_root = os.path.realpath(os.path.join(os.environ.get('SCALES_REPO', '/repo'), 'scales')) + os.sep
-            if isinstance(ex, (NameError, AttributeError, TypeError)) and origin.startswith(impl_root):
+            if isinstance(ex, (NameError, AttributeError, TypeError, LookupError, ZeroDivisionError, RecursionError)) \
+                    and origin.startswith(impl_root):
                 case['tags'].append('impl-internal-error')
                 case['origin'] = '%s:%d %s' % (os.path.relpath(origin, impl_root), tb.tb_lineno, type(ex).__name__)
         case['script'] = script
